@@ -177,3 +177,113 @@ example : fileFqnAt exA [4, 0, 3, 0, 2, 1] = some ".p.M.MEntry.value" := by simp
 example : fileFqnAt exA [5, 0, 2, 0] = some ".p.E.Z" := by simp [fileFqnAt, exA, fileScope]
 
 end Pgs.AST
+
+/-! ### the container of every entity is itself a declared entity -/
+namespace Pgs.AST
+
+theorem parent_append_two (fi : Nat) (p : List Nat) (a b : Nat) : (⟨fi, p ++ [a, b]⟩ : Ref).parent = ⟨fi, p⟩ := by
+  simp [Ref.parent]
+
+theorem parent_append_four (fi : Nat) (p : List Nat) (a b c d : Nat) : (⟨fi, p ++ [a, b, c, d]⟩ : Ref).parent = ⟨fi, p ++ [a, b]⟩ := by
+  have : p ++ [a, b, c, d] = (p ++ [a, b]) ++ [c, d] := by simp
+  rw [this, parent_append_two]
+
+/-- inside a sibling list of messages below the container `⟨fi, p⟩`, the container of every
+    declaration is that container or a declaration of the same list -/
+theorem msgs_parent (fi : Nat) : ∀ (ms : Msgs) (sc : String) (p : List Nat) (tag i : Nat),
+    ∀ d ∈ declMsgs fi sc p tag i ms,
+      d.ref.parent = ⟨fi, p⟩ ∨ d.ref.parent ∈ (declMsgs fi sc p tag i ms).map (·.ref) := by
+  intro ms
+  induction ms with
+  | nil => intro sc p tag i d hd; simp [declMsgs] at hd
+  | cons h nested rest ih1 ih2 =>
+    intro sc p tag i d hd
+    have hself : (⟨fi, p ++ [tag, i]⟩ : Ref) ∈ (declMsgs fi sc p tag i (.cons h nested rest)).map (·.ref) := by
+      simp [declMsgs]
+    simp only [declMsgs, List.cons_append, List.mem_cons, List.mem_append] at hd
+    rcases hd with rfl | (((((hd | hd) | hd) | hd) | hd) | hd)
+    · exact .inl (parent_append_two fi p tag i)
+    · -- enums of this message and their values
+      right
+      simp only [declEnums, List.mem_flatten, List.mem_map] at hd
+      obtain ⟨l, ⟨⟨k, e⟩, hk, rfl⟩, hd⟩ := hd
+      simp only [declEnum, List.mem_cons, List.mem_map] at hd
+      rcases hd with rfl | ⟨⟨v, ev⟩, hv, rfl⟩
+      · rw [parent_append_two]; exact hself
+      · have : (⟨fi, p ++ [tag, i] ++ [4, k] ++ [2, v]⟩ : Ref).parent = ⟨fi, p ++ [tag, i] ++ [4, k]⟩ := parent_append_two ..
+        rw [this]
+        simp only [declMsgs, List.cons_append, List.map_cons, List.map_append, List.mem_cons, List.mem_append, List.mem_map]
+        right; left; left; left; left; left
+        refine ⟨⟨(sc ++ "." ++ h.name) ++ "." ++ e.name, ⟨fi, p ++ [tag, i] ++ [4, k]⟩, .enum⟩, ?_, rfl⟩
+        simp only [declEnums, List.mem_flatten, List.mem_map]
+        exact ⟨_, ⟨(k, e), hk, rfl⟩, by simp [declEnum]⟩
+    · -- below a nested message
+      right
+      rcases ih1 _ (p ++ [tag, i]) 3 0 d hd with h0 | h0
+      · rw [h0]; exact hself
+      · simp only [declMsgs, List.cons_append, List.map_cons, List.map_append, List.mem_cons, List.mem_append]
+        right; left; left; left; left; right
+        exact h0
+    · right
+      simp only [declOneofs, List.mem_map] at hd
+      obtain ⟨⟨k, x⟩, _, rfl⟩ := hd
+      rw [parent_append_two]; exact hself
+    · right
+      simp only [declFields, List.mem_map] at hd
+      obtain ⟨⟨k, x⟩, _, rfl⟩ := hd
+      rw [parent_append_two]; exact hself
+    · right
+      simp only [declFields, List.mem_map] at hd
+      obtain ⟨⟨k, x⟩, _, rfl⟩ := hd
+      rw [parent_append_two]; exact hself
+    · rcases ih2 sc p tag (i+1) d hd with h0 | h0
+      · exact .inl h0
+      · right
+        simp only [declMsgs, List.cons_append, List.map_cons, List.map_append, List.mem_cons, List.mem_append]
+        right; right
+        exact h0
+
+/-- **C02 (containers)**: the container link of every declaration other than the file — the model's
+    `parent` column, `d.ref.parent` — points to a declaration of the same file: the file itself, the
+    message / enum / service that declares it. -/
+theorem C02_container_declared (fi : Nat) (f : FileD) : ∀ d ∈ declFile fi f, d.kind ≠ .file →
+    d.ref.parent ∈ (declFile fi f).map (·.ref) := by
+  intro d hd hk
+  have hfile : (⟨fi, []⟩ : Ref) ∈ (declFile fi f).map (·.ref) := by simp [declFile, declFileHead]
+  simp only [declFile, declFileHead, declServices, List.cons_append, List.mem_cons, List.mem_append,
+    List.mem_flatten, List.mem_map] at hd
+  rcases hd with rfl | (((hd | hd) | hd) | ⟨l, ⟨⟨i, s⟩, hi, rfl⟩, hd⟩)
+  · exact absurd rfl hk
+  · simp only [declEnums, List.mem_flatten, List.mem_map] at hd
+    obtain ⟨l, ⟨⟨k, e⟩, hk', rfl⟩, hd⟩ := hd
+    simp only [declEnum, List.mem_cons, List.mem_map] at hd
+    rcases hd with rfl | ⟨⟨v, ev⟩, hv, rfl⟩
+    · have : (⟨fi, [] ++ [5, k]⟩ : Ref).parent = ⟨fi, []⟩ := parent_append_two ..
+      rw [this]; exact hfile
+    · have : (⟨fi, [] ++ [5, k] ++ [2, v]⟩ : Ref).parent = ⟨fi, [] ++ [5, k]⟩ := parent_append_two ..
+      rw [this]
+      simp only [declFile, declFileHead, List.cons_append, List.map_cons, List.map_append, List.mem_cons, List.mem_append, List.mem_map]
+      right; left; left; left
+      refine ⟨⟨fileScope f ++ "." ++ e.name, ⟨fi, [] ++ [5, k]⟩, .enum⟩, ?_, rfl⟩
+      simp only [declEnums, List.mem_flatten, List.mem_map]
+      exact ⟨_, ⟨(k, e), hk', rfl⟩, by simp [declEnum]⟩
+  · simp only [declFields, List.mem_map] at hd
+    obtain ⟨⟨k, x⟩, _, rfl⟩ := hd
+    have : (⟨fi, [] ++ [7, k]⟩ : Ref).parent = ⟨fi, []⟩ := parent_append_two ..
+    rw [this]; exact hfile
+  · rcases msgs_parent fi f.msgs _ [] 4 0 d hd with h0 | h0
+    · rw [h0]; exact hfile
+    · simp only [declFile, declFileHead, List.cons_append, List.map_cons, List.map_append, List.mem_cons, List.mem_append]
+      right; left; right
+      exact h0
+  · simp only [declService, List.mem_cons, List.mem_map] at hd
+    rcases hd with rfl | ⟨⟨m, em⟩, hm, rfl⟩
+    · have : (⟨fi, [6, i]⟩ : Ref).parent = ⟨fi, []⟩ := parent_append_two fi [] 6 i
+      rw [this]; exact hfile
+    · have : (⟨fi, [6, i, 2, m]⟩ : Ref).parent = ⟨fi, [6, i]⟩ := parent_append_four fi [] 6 i 2 m
+      rw [this]
+      simp only [declFile, declServices, List.map_append, List.mem_append, List.mem_map, List.mem_flatten]
+      right
+      refine ⟨⟨fileScope f ++ "." ++ s.name, ⟨fi, [6, i]⟩, .service⟩, ⟨_, ⟨(i, s), hi, rfl⟩, by simp [declService]⟩, rfl⟩
+
+end Pgs.AST
